@@ -158,6 +158,20 @@ fn w() {
 		Judge: spawnJudge("m", "w 12"),
 	},
 	{
+		// the host's sink is locked per write, as in the project's own executor: what one
+		// print statement emits must still arrive as one piece
+		Name: "printers-on-a-locked-host-sink",
+		Source: `fn main() {
+    spawn a(1);
+    spawn b(2);
+}
+fn a(x: int) { println("a", x); }
+fn b(x: int) { println("b", x); print("c", x, "\n"); }
+`,
+		LockedOutput: true,
+		Judge:        spawnJudge("a 1", "b 2", "c 2 "),
+	},
+	{
 		Name: "fatal-core",
 		Source: `fn main() {
     spawn bad();
